@@ -91,18 +91,18 @@ def lean_machine(m):
     L.append("inductive State where")
     for s in m["states"]:
         L.append(f"  | {ident(s)}")
-    L.append("  deriving DecidableEq, Repr, Inhabited")
+    L.append("  deriving DecidableEq, Repr, Inhabited, Hashable")
     L.append("inductive Input where")
     for s in m["inputs"]:
         L.append(f"  | {ident(s)}")
-    L.append("  deriving DecidableEq, Repr, Inhabited")
+    L.append("  deriving DecidableEq, Repr, Inhabited, Hashable")
     L.append("inductive Output where")
     if m["outputs"]:
         for s in m["outputs"]:
             L.append(f"  | {ident(s)}")
     else:
         L.append("  | k_none")
-    L.append("  deriving DecidableEq, Repr, Inhabited")
+    L.append("  deriving DecidableEq, Repr, Inhabited, Hashable")
     L.append(f"def init : State := .{ident(m['init'])}")
     L.append("def State.all : List State := [" + ", ".join("." + ident(s) for s in m["states"]) + "]")
     L.append("def Input.all : List Input := [" + ", ".join("." + ident(s) for s in m["inputs"]) + "]")
@@ -450,6 +450,49 @@ def lean_flags(flags):
     return "\n".join(L) + "\n"
 
 
+# ---------------------------------------------------------------------------
+# C05: `wormhole receive` path handling (cli/cmd_receive.py) — constants and unfiltered call skeletons
+
+RECV_METHODS = ["_decide_destname", "_remove_existing", "_extract_file", "_write_file", "_write_directory"]
+RECV_KEEP = re.compile(r"^(os\.|self\._(remove_existing|extract_file|decide_destname|ask_permission)$|"
+                       r"TransferRejectedError$|RespondError$|ValueError$|zf\.|zipfile\.|open$|input$|"
+                       r"estimate_free_space$|f\.close$|\w+\.startswith$|shutil\.|tempfile\.)")
+
+
+def extract_recv():
+    """tmp-file suffix of Receiver._handle_file and the ordered (guard, callee) lists of the
+    path-handling methods of cmd_receive.Receiver (nothing filtered but printing/formatting)."""
+    from wormhole.cli import cmd_receive
+    R = cmd_receive.Receiver
+    tree = ast.parse(textwrap.dedent(inspect.getsource(R._handle_file)))
+    suffix = None
+    for node in ast.walk(tree):
+        if (isinstance(node, ast.Assign) and isinstance(node.value, ast.BinOp) and isinstance(node.value.op, ast.Add)
+                and isinstance(node.value.left, ast.Attribute) and node.value.left.attr == "abs_destname"
+                and isinstance(node.value.right, ast.Constant) and isinstance(node.value.right.value, str)):
+            suffix = node.value.right.value
+    calls = {}
+    for name in RECV_METHODS:
+        fn = ast.parse(textwrap.dedent(inspect.getsource(getattr(R, name)))).body[0]
+        sk = _Skel()
+        for n in fn.body:
+            sk.visit(n)
+        calls[name] = [(g, c) for g, c in sk.calls if RECV_KEEP.match(c)]
+    L = ["namespace WV.Gen.Recv",
+         "/-- `tmp_destname = self.abs_destname + <this>` in Receiver._handle_file (empty: not of that shape) -/",
+         f"def tmp_suffix : String := {lean_str(suffix or '')}",
+         "def tmp_suffix_chars : List Char := [" + ", ".join("Char.ofNat %d" % ord(c) for c in (suffix or "")) + "]",
+         "/-- ordered `(guard-shape, callee)` of the path-handling methods of cmd_receive.Receiver -/",
+         "def calls : String → List (String × String)"]
+    for k in sorted(calls):
+        items = ", ".join(f"({lean_str(g)}, {lean_str(c)})" for g, c in calls[k])
+        L.append(f"  | {lean_str(k)} => [{items}]")
+    L.append("  | _ => []")
+    L.append("def methods : List String := [" + ", ".join(lean_str(k) for k in sorted(calls)) + "]")
+    L.append("end WV.Gen.Recv")
+    return "\n".join(L) + "\n"
+
+
 def main():
     changed = []
     machines = [dump_machine(*m) for m in MACHINES]
@@ -471,6 +514,8 @@ def main():
     fl = extract_flags()
     if write_if_changed(os.path.join(GEN, "Flags.lean"), hdr + lean_flags(fl)):
         changed.append("Flags")
+    if write_if_changed(os.path.join(GEN, "Recv.lean"), hdr + extract_recv()):
+        changed.append("Recv")
     summary = {
         "machines": len(machines),
         "transitions": sum(len(m["rows"]) for m in machines),
